@@ -17,6 +17,7 @@ static const Lim LIMS[] = {
     {"extent_int", 255}, {"extent_float", 255}, {"extent_string_count", 255}, {"extent_string_width", 255},
     {"points", 255}, {"channels", 255}, {"frames", 32767}, {"int_value_high", 32767}, {"int_value_low", -32768},
     {"parameter_blocks", 255}, {"record_next_offset", 65535}, {"string_table_entries_255_wide", 255}, {"parameter_record_bytes", 255 * 512 - 1},
+    {"analog_samples_per_frame", 65535}, {"frames_appended_to_a_loaded_object", 1000000},
 };
 static const int NLIMS = sizeof LIMS / sizeof LIMS[0];
 
@@ -58,6 +59,14 @@ static void applyLimit(ezc3d::c3d& c, int lim, long v, const std::string& scratc
                 if (T < 0) T = 0;
             }
             addFillers(c, T); if (c.parameters().group("POINT").parameter("USED").valuesAsInt()[0] == 0) applyLimit(c, 8, 3, scratch); break; }   // plus a little data, so a wrong block count is observable
+        case 17: { // one channel, v sub-frames per frame: the header word "analog samples per frame" holds v (16 bits)
+            { Param r("RATE"); r.set(std::vector<float>(1, 1.f)); c.parameter("POINT", r); Param a("RATE"); a.set(std::vector<float>(1, (float)v)); c.parameter("ANALOG", a); }
+            c.analog("ONLY_CHANNEL");
+            ezc3d::DataNS::Frame fr; ezc3d::DataNS::AnalogsNS::Analogs an; for (long s = 0; s < v; ++s) { ezc3d::DataNS::AnalogsNS::SubFrame sf; ezc3d::DataNS::AnalogsNS::Channel ch; ch.name("ONLY_CHANNEL"); ch.data(0.5f + (float)(s % 1000)); sf.channel(ch); an.subframe(sf); }
+            fr.add(an); c.frame(fr); break; }
+        case 18: { // (objects loaded from a file, --start) v more frames, copies of the first one
+            if (c.data().nbFrames() == 0) break;
+            for (long i = 0; i < v; ++i) { ezc3d::DataNS::Frame fr; fr.add(c.data().frame(0)); c.frame(fr); } break; }
         case 16: { // the records of the parameter section take exactly v bytes; the end marker needs one more, so 255 blocks hold 130 559 (130 560 = a section that ends exactly on the block boundary)
             if (c.parameters().group("POINT").parameter("USED").valuesAsInt()[0] == 0) applyLimit(c, 8, 3, scratch);   // a little data first (its labels are parameters too); a missing end marker is then observable
             { Param sd("SEED"); sd.set(1); c.parameter("LIM", sd); }
@@ -99,6 +108,7 @@ static std::vector<long> levelsOf(int lim) {
     v.push_back(L - 1); v.push_back(L); v.push_back(L + 1);
     switch (lim) { case 0: v.push_back(300); break; case 1: case 2: case 3: v.push_back(200); v.push_back(255); v.push_back(256); break; case 4: case 5: case 6: case 7: v.push_back(300); v.push_back(512); break;
         case 8: case 9: v.push_back(300); break; case 10: v.push_back(40000); break; case 11: v.push_back(40000); v.push_back(65535); v.push_back(2147483647L); break; case 13: v.push_back(258); break; case 14: v.push_back(65540); break; case 15: v.push_back(128); v.push_back(129); break; }
+    if (lim == 18) { v.clear(); v.push_back(1); v.push_back(2); v.push_back(5); }
     return v;
 }
 
@@ -134,7 +144,11 @@ void runLimits(const Opts& o, long idx, CaseLog& log) {
     bool allWithin = within(k.a, k.va) && (k.b < 0 || within(k.b, k.vb));
     std::string which = !within(k.a, k.va) ? LIMS[k.a].name : (k.b >= 0 && !within(k.b, k.vb)) ? LIMS[k.b].name : "";
     char fp[700], sp[700]; snprintf(fp, sizeof fp, "%s/lim_%ld.c3d", o.out.c_str(), idx); snprintf(sp, sizeof sp, "%s/scratch_%ld.c3d", o.out.c_str(), idx);
-    ezc3d::c3d c;
+    // --start FILE: the limit content is added to an object loaded from that file (group ids with gaps, frame numbers up to 65535 ...)
+    std::string start = o.get("start");
+    if (!start.empty() && (k.a == 8 || k.a == 9 || k.a == 10 || k.a == 13 || k.a == 16 || k.a == 17)) { log.line("RES %ld %s skipped_for_loaded_start within=%d", idx, desc.c_str(), allWithin ? 1 : 0); return; }
+    std::unique_ptr<ezc3d::c3d> holder; try { holder.reset(start.empty() ? new ezc3d::c3d() : new ezc3d::c3d(start)); } catch (const std::exception& e) { log.line("RES %ld %s start_file_refused within=%d", idx, desc.c_str(), allWithin ? 1 : 0); return; }
+    ezc3d::c3d& c = *holder;
     Outcome bo; log.pre("build", desc);
     try { applyLimit(c, k.a, k.va, sp); if (k.b >= 0) applyLimit(c, k.b, k.vb, sp); finishData(c); } catch (const std::exception& e) { bo = classify(e); }
     unlink(sp);
